@@ -11,12 +11,14 @@ more faults).
 State that decides WHERE a page command lands: the sector the tag really is in (`Tag.sector`) and the
 sector the tag OBJECT believes is selected (`W.cur`, `Type2Tag._current_sector`).
 
-Two kinds of event cannot be handled by any reader and are recorded in `W.amb` (the belief may be wrong
-from then on): (1) the passive acknowledgement of SECTOR SELECT packet 2 was not faithful - the reader saw
-silence although the tag did not switch, or saw something although it did; (2) the tag was re-activated
-(`clf.sense` in `Type2Tag.read` after a NAK: the tag returns to sector 0) while the object believed another
-sector than 0 - the code as it is does not reset `_current_sector` there (finding
-`t2-sector-stale-after-reactivation`).
+The object's belief is `Option Nat`: `none` = unknown (`_current_sector = None` after a packet 2 that was
+answered by anything but silence: "the tag may or may not have switched"); the next page access of the memory
+reader then selects its sector again because `sector != None`.  After a NAK answer to READ the code senses the
+tag again (the tag returns to sector 0) and sets the belief to `some 0`.
+
+One kind of event cannot be handled by any reader and is recorded in `W.amb` (the belief may be wrong from
+then on): the passive acknowledgement of SECTOR SELECT packet 2 was not faithful - the reader saw silence
+although the tag did not switch, or a clean NAK although it did.
 -/
 namespace NfcVerif.SectC03
 open NfcVerif
@@ -50,7 +52,7 @@ new sector), data written, issued by the memory reader?, no ambiguous event so f
 structure Ev where
   kind : Kind
   real : Nat
-  bel : Nat
+  bel : Option Nat
   page : Nat
   data : Bytes
   mr : Bool
@@ -59,7 +61,7 @@ structure Ev where
 
 structure W where
   tag : Tag
-  cur : Nat
+  cur : Option Nat
   script : List Air
   amb : Bool
   trace : List Ev          -- newest first
@@ -131,12 +133,14 @@ def transceive : Nat → W → Bool → Frame → RErr → W × Py Bytes
     | (w', .ok d) => (w', .ok d)
     | (w', .error e) => transceive n w' mr f e
 
-/-- was the passive acknowledgement of packet 2 faithful?  (`valid`: the sector exists) -/
+/-- was the passive acknowledgement of packet 2 faithful?  (`valid`: the sector exists.)  Unfaithful: silence
+without a switch (frame dropped, damaged frame unanswered, NAK of a non-existing sector lost) or a clean NAK seen
+although the tag switched.  A damaged answer is NOT ambiguous: the code forgets the sector. -/
 def ss2Faithful (valid : Bool) : Air → Bool
   | .ok => true
   | .drop => false
   | .corrupt e => e != .timeout
-  | .lost e => if valid then e == .timeout else e != .timeout
+  | .lost e => if valid then e != .nak else e != .timeout
 
 /-- second half of `sector_select`: packet 2 with `timeout=0.001, retries=0` (`transceive` with one attempt =
 one `exchange`, a communication error mapped to its `Type2TagCommandError`) and the passive acknowledgement -/
@@ -144,25 +148,25 @@ def selectP2 (w1 : W) (mr : Bool) (s : Nat) : W × Py Nat :=
   let amb := w1.amb || !(ss2Faithful (decide (s * 1024 < w1.tag.mem.length)) (w1.script.headD .ok))
   match exchange w1 mr (.ss2 s) with
   | (w2, .error e) =>
-    if e = .timeout then ({ w2 with cur := s, amb := amb }, .ok s)        -- passive ack
-    else ({ w2 with amb := amb }, .error (errOf e))
+    if e = .timeout then ({ w2 with cur := some s, amb := amb }, .ok s)   -- passive ack
+    else ({ w2 with cur := none, amb := amb }, .error (errOf e))          -- may or may not have switched
   | (w2, .ok _) => ({ w2 with amb := amb }, .error (.tagCmd 1))          -- sector does not exist
 
 /-- `Type2Tag.sector_select(sector)` -/
 def sectorSelect (w : W) (mr : Bool) (s : Nat) : W × Py Nat :=
-  if s = w.cur then (w, .ok w.cur) else
+  if w.cur = some s then (w, .ok s) else
   match transceive 3 w mr .ss1 .timeout with
   | (w1, .error e) => (w1, .error e)
   | (w1, .ok rsp) => if rsp = [0x0A] then selectP2 w1 mr s else (w1, .error (.tagCmd 1))
 
-/-- `Type2Tag.read(page)`; a NAK makes the code sense the tag again (the tag returns to sector 0) -/
+/-- `Type2Tag.read(page)`; a NAK makes the code sense the tag again: the tag returns to sector 0 and
+`_current_sector` is set to 0 -/
 def read (w : W) (mr : Bool) (page : Nat) : W × Py Bytes :=
   match transceive 3 w mr (.read page) .timeout with
   | (w1, .error e) => (w1, .error e)
   | (w1, .ok d) =>
     if d.length = 1 ∧ (d.headD 0) &&& 0xFA = 0 then
-      ({ w1 with tag := { w1.tag with sector := 0, pend := false }, amb := w1.amb || decide (w1.cur ≠ 0) },
-       .error (.tagCmd 2))
+      ({ w1 with tag := { w1.tag with sector := 0, pend := false }, cur := some 0 }, .error (.tagCmd 2))
     else if d.length ≠ 16 then (w1, .error (.tagCmd 3))
     else (w1, .ok d)
 
@@ -269,7 +273,7 @@ def run : (W × MR) → List Op → (W × MR) × List Res
 
 /-- a freshly activated object on a tag in sector 0, nothing read yet -/
 def fresh (mem : Bytes) (script : List Air) : W × MR :=
-  (⟨⟨mem, 0, false⟩, 0, script, false, []⟩, ⟨[], [], []⟩)
+  (⟨⟨mem, 0, false⟩, some 0, script, false, []⟩, ⟨[], [], []⟩)
 
 /-- absolute byte address an executed page command touched -/
 def Ev.addr (e : Ev) : Nat := e.real * 1024 + (e.page % 256) * 4
